@@ -415,7 +415,8 @@ def gen_step(c, module, cfg, name, simulate=None, workers=8, timeout=3000, seed_
 
 def replay_step(c, rt, module_args, jsonl, extra_args=(), parts=4, label="", what="implementation diverges from the specification", mode="replay", keep=False):
     pieces = split_file(jsonl, parts, jsonl + ".part")
-    cmds = [[rt] + list(module_args) + [mode, p] + list(extra_args) for p in pieces]
+    # "{part}" in an extra argument stands for the piece's own file name (per-process output files)
+    cmds = [[rt] + list(module_args) + [mode, p] + [a.replace("{part}", p) for a in extra_args] for p in pieces]
     tb = ts = 0
     for (rc, summ, out), p in zip(run_parallel(cmds, timeout=3000), pieces):
         if rc == 2 or rc == 124:
